@@ -4,11 +4,12 @@ from props import tokcommon as tc
 PROP = "C03"
 ENGINE = "tok"
 USES_TRANSLATOR = True
-LEAN_TARGETS = ["H5V.Props.C03"]
-AUDIT_IMPORTS = ["H5V.Props.C03"]
+LEAN_TARGETS = ["H5V.Props.C03", "H5V.Props.C03End"]
+AUDIT_IMPORTS = ["H5V.Props.C03End"]
 THEOREMS = ["H5V.Props.C03." + t for t in [
     "C03_chunk_independence", "C03_step_mono", "C03_step_resume", "C03_step_invariant", "C03_bom_once",
-    "C03_runsTo_deterministic", "runP_sound", "runP_complete", "good_initial"]] + [
+    "C03_runsTo_deterministic", "runP_sound", "runP_complete", "good_initial",
+    "C03_finish_sim", "C03_chunked_then_end", "run_sim", "eofLoop_setCC"]] + [
     "H5V.Model.HtmlTok." + t for t in ["session_flatten", "runsTo_chunk", "step_sim", "transSet_dead", "transChar_enter"]]
 TRUSTED = [
     "Lean 4 kernel; axioms ⊆ {propext, Classical.choice, Quot.sound} (audited per run)",
